@@ -54,7 +54,7 @@ def mask(sql, choices):
 
 @st.composite
 def cases(draw, depth):
-    kind = draw(st.sampled_from(("masked", "masked", "masked", "star", "using", "using3", "aliasref", "ctecols", "ambiguous")))
+    kind = draw(st.sampled_from(("masked", "masked", "masked", "star", "using", "using3", "aliasref", "ctecols", "ambiguous", "quotedtable")))
     d = draw(st.sampled_from(DIALECTS))
     tables = draw(queries.tables())
     feats = [kind]
@@ -64,6 +64,18 @@ def cases(draw, depth):
         sql, n = mask(c["sql"], choices)
         feats += c["features"] + (["bare-columns"] if n else [])
         return _with_depth({"sql": sql, "tables": tables, "dialect": d, "kind": kind, "features": feats, "ordered": c["ordered"], "bare": n}, draw)
+    if kind == "quotedtable":
+        # a quoted, mixed-case table name next to its lower-case twin: references through the quoted name must resolve to it (the
+        # implicit alias of a quoted name keeps its spelling), in dialects where quoted identifiers are case-sensitive
+        qd = draw(st.sampled_from(("postgres", "snowflake", "", "oracle", "redshift", "trino")))
+        sql = draw(st.sampled_from((
+            'SELECT "Tq".a AS o0 FROM "Tq"',
+            'SELECT a AS o0 FROM "Tq"',
+            'SELECT "Tq".a AS o0, tq.z AS o1 FROM "Tq" JOIN tq ON "Tq".a = tq.a',
+            'SELECT "Tq".* FROM "Tq" JOIN tq ON "Tq".a = tq.a',
+            'SELECT x."Qc" AS o0 FROM "Tq" AS x WHERE x."Qc" > 1',
+        )))
+        return {"sql": sql, "tables": tables, "dialect": qd, "kind": kind, "features": feats, "ordered": False, "bare": 1, "quoted_schema": True, "must_qualify": True}
     t1, t2 = draw(st.sampled_from(("t", "u", "v"))), draw(st.sampled_from(("t", "u", "v")))
     if kind == "star":
         d = "duckdb" if draw(st.booleans()) else d
@@ -102,13 +114,16 @@ def cases(draw, depth):
         c1 = draw(st.sampled_from([c for c in COLS[pair[0]] if c != key and c in "abdf"] or [COLS[pair[0]][1]]))
         c3 = draw(st.sampled_from([c for c in COLS[t3] if c in "abdf"]))
         third = draw(st.sampled_from((f"JOIN {t3} AS x3 ON x1.{c1} = x3.{c3}", f"LEFT JOIN {t3} AS x3 ON x1.{c1} = x3.{c3}", f"CROSS JOIN {t3} AS x3")))
-        sel = draw(st.sampled_from(("*", "x3.*", "x1.*", "x2.*", f"x3.*, {key} AS k", f"{key} AS k, x3.{COLS[t3][0]} AS o1", "x1.*, x3.*", f"x2.*, x3.{COLS[t3][1]} AS o1")))
+        sel = draw(st.sampled_from(("*", "x3.*", "x1.*", "x2.*", f"x3.*, {key} AS k", f"{key} AS k, x3.{COLS[t3][0]} AS o1", "x1.*, x3.*", f"x2.*, x3.{COLS[t3][1]} AS o1", "x1.*, x2.*", "x2.*, x1.*")))
         sql = f"SELECT {sel} FROM {pair[0]} AS x1 {side} {pair[1]} AS x2 USING ({key}) {third}"
         # known finding C10-qualified-star-using-coalesce: x.* over a USING participant yields COALESCE(...) for the key; only
         # observable when that side can be null-extended, which is the region excluded (and counted) here
         null_extended = {"JOIN": (), "LEFT JOIN": ("x2",), "RIGHT JOIN": ("x1",), "FULL JOIN": ("x1", "x2")}[side]
         if any(f"{x}.*" in sel for x in null_extended):
             feats.append("excluded:qualified-star-null-extended-using-side")
+        if "x1.*" in sel and "x2.*" in sel:
+            # same finding: the second participant's star loses the key column altogether (engines return x1.k and x2.k)
+            feats.append("excluded:qualified-star-both-using-sides")
         feats += ["star"] if "*" in sel else []
         return {"sql": sql, "tables": tables, "dialect": "duckdb" if draw(st.integers(0, 3)) else d, "kind": kind, "features": feats, "ordered": False, "bare": 1}
     if kind == "aliasref":
@@ -174,6 +189,8 @@ def check_case(case, res=None):
     dd = d or None
     fails = []
     schema = queries.schema_dict()
+    if case.get("quoted_schema"):
+        schema = {'"Tq"': {"a": "INT", '"Qc"': "INT"}, "tq": {"a": "INT", "z": "INT"}}
     depth = case.get("schema_depth", 1)
     qkw = {}
     if depth == 2:
@@ -215,7 +232,10 @@ def check_case(case, res=None):
             else:
                 try:
                     names1, rows1 = db.run(q1.sql("duckdb"))
-                    if [n.lower() for n in names1] != [n.lower() for n in duck[0]]:
+                    if "excluded:qualified-star-both-using-sides" in case.get("features", ()) and not case.get("strict"):
+                        if res is not None:
+                            res.excluded["C10-qualified-star-using-coalesce"] += 1
+                    elif [n.lower() for n in names1] != [n.lower() for n in duck[0]]:
                         fails.append((f"qualified-column-names|{case['kind']}", f"{sql!r} -> {q1.sql('duckdb')!r}: {duck[0]} vs {names1}"))
                     elif "excluded:qualified-star-null-extended-using-side" in case.get("features", ()) and not case.get("strict"):
                         # known finding: only the ROW comparison is waived for this region; names, idempotence, structure stay
@@ -231,6 +251,8 @@ def check_case(case, res=None):
         nontrivial = case["bare"] > 0 or case["kind"] != "masked"
         res.case(core.h8([sql, d]), bool(nontrivial), [f"kind:{case['kind']}", f"dialect:{d or 'base'}", f"schema-depth:{depth}"] + (["qualify-raised"] if raised is not None else []) + (["bare-columns"] if case["bare"] else []) + (["duckdb-judged"] if duck is not None else []))
     if raised is not None:
+        if case.get("must_qualify"):
+            fails.append((f"qualify-rejects-valid-query|{case['kind']}", f"{d or 'base'} {sql!r}: {type(raised).__name__}: {str(raised)[:200]}"))
         return fails
     # structure -------------------------------------------------------------------------------------
     for tbl in q1.find_all(exp.Table):
